@@ -368,6 +368,7 @@ pub fn run(tier: Tier) -> Report {
             }
             sharing_family(&mut |g| push(g));
             crate::fam::nested_words(&mut |g| push(g));
+            crate::fam::described_twins(&mut |g| push(g));
             crate::fam::deep_shapes(&mut |g| push(g));
             crate::fam::order_sensitive(&mut |g| push(g));
             crate::fam::with_defs(3, 2, 2, &mut |g| push(g));
